@@ -719,6 +719,56 @@ func c20DirEntries() []c20File {
 	return []c20File{{"", 90, nil}, {".", 91, nil}, {"..", 92, nil}}
 }
 
+// c20GenTree builds a tree directly (not by parsing); expressible ones are printed in the canonical
+// syntax and must parse back to exactly this tree.
+func c20GenTree(r *vh.Rng, depth int) []Node {
+	n := r.Intn(4)
+	if depth == 0 {
+		n = 1 + r.Intn(4)
+	}
+	var out []Node
+	for i := 0; i < n; i++ {
+		nd := Node{Name: vcfg.TreeNames[r.Intn(len(vcfg.TreeNames))]}
+		for k := r.Intn(4); k > 0; k-- {
+			nd.Args = append(nd.Args, vcfg.TreeWords[r.Intn(len(vcfg.TreeWords))])
+		}
+		if r.Chance(40 / (depth + 1)) {
+			nd.Children = c20GenTree(r, depth+1)
+			if nd.Children == nil {
+				nd.Children = []Node{}
+			}
+		}
+		out = append(out, nd)
+	}
+	return out
+}
+
+func (rn *c20Runner) runTree(out *vh.Out, cs *c20Case, tree []Node) {
+	if !c20Expressible(tree) {
+		out.Stat("tree=inexpressible")
+		return
+	}
+	var pr strings.Builder
+	c20Print(tree, &pr)
+	cs.input = []byte(pr.String())
+	op := "C20 parse " + cs.opArgs()
+	rn.prepare(cs)
+	res := rn.read(cs.input)
+	out.Stat("tree=checked")
+	switch {
+	case res.timeout || res.panicked != nil:
+		out.Violation("C20/roundtrip", op, fmt.Sprintf("parse of a printed tree crashed or hung: %v", res.panicked))
+	case res.err != nil:
+		out.Violation("C20/roundtrip", op, "parse of a printed expressible tree failed: "+res.err.Error())
+	case !c20SameShape(tree, res.nodes):
+		var b2 strings.Builder
+		rn.showNodes(cs, res.nodes, &b2)
+		out.Violation("C20/roundtrip", op, "parse of a printed expressible tree gives a different tree: "+b2.String())
+	}
+	// and the usual correspondence + monitors on the same text
+	rn.runCase(out, cs, true, "tree")
+}
+
 var c20Fixed = []string{
 	"",
 	"a",
@@ -837,6 +887,16 @@ func TestVerifC20Parse(t *testing.T) {
 	n := vh.N(3000)
 	for i := 0; i < n; i++ {
 		r := vh.NewRng(vh.Seed()*7919 + uint64(i))
+		if i%8 == 7 {
+			cs := &c20Case{files: c20DirEntries()}
+			for _, k := range vcfg.EnvKeys {
+				if r.Chance(40) {
+					cs.env = append(cs.env, [2]string{k, c20EnvVals[r.Intn(len(c20EnvVals))]})
+				}
+			}
+			rn.runTree(out, cs, c20GenTree(r, 0))
+			continue
+		}
 		cs, tag := c20GenCase(r)
 		rn.runCase(out, cs, i%3 == 0, tag)
 	}
